@@ -458,4 +458,10 @@ theorem keptEntries_self_of_entryOp {tol : Rat} {A' B : List Entry}
   simp [← this, hB b hb]
 
 
+/-! concrete data for the non-vacuity examples of Properties/C20.lean -/
+def exNt : NumTables := ⟨[(['1', '.', '5'], ⟨3 / 2, 0⟩)], [(['2', 'j'], ⟨0, 2⟩)]⟩
+def exA : List Entry :=
+  [([(2, 1), (13, 0)], ⟨3 / 2, 0⟩, ['1', '.', '5']), ([(0, 0)], -⟨0, 2⟩, ['-', '2', 'j'])]
+
+
 end OFV.C20
